@@ -163,6 +163,11 @@ func main() {
 		time.Duration(r.N(600, 1500))*time.Second, extra)
 	childVerdict(r, res, "pipelined-reads")
 
+	// (7) per-call contexts of different kinds (none / deadline / cancelled / expiring) with real time between calls
+	res = runChild(r, "ctx", map[string]string{"C09_SEED": seed + "13", "C09_ROUNDS": strconv.Itoa(r.N(2, 8))},
+		time.Duration(r.N(600, 1500))*time.Second, extra)
+	childVerdict(r, res, "ctx-sequence")
+
 	for k, v := range extra {
 		r.Extra[k] = v
 	}
